@@ -1,5 +1,6 @@
 (* C10 — Random access: results do not depend on what was read before.
    Only statements, `exact`, `Check` pins, `Print Assumptions` and non-vacuity examples. *)
+From MLA Require Import Limit.
 From MLA Require Import Base Stream EncLayer Blocks Writer Reader Inst Run HistProofs.
 From MLA.Concrete Require Sha256.
 From MLAGen Require Src.
@@ -48,10 +49,10 @@ Proof. intros. apply history_independent. apply seekforgets_enc. apply seekforge
 Definition ex_ops : list (wop) :=
   [OStart [97]; OStart [98]; OAppend 0 3 [1; 2; 3]; OAppend 1 2 [9; 8]; OAppend 0 2 [4; 5]; OEnd 0; OEnd 1; OFinalize].
 Definition ex_body : bytes :=
-  w_out (fst (wrun 48 Src.BT_FileStart Src.BT_FileContent Src.BT_EndOfArchiveData Src.BT_EndOfFile
+  w_out (fst (wrun (LIM := Src.BINCODE_MAX_DESERIALIZE_prod) 48 Src.BT_FileStart Src.BT_FileContent Src.BT_EndOfArchiveData Src.BT_EndOfFile
                    Sha256.sha256 (fun f => f) w_init ex_ops)).
 Example C10_example :
-  match ropen (Cursor ex_body) 0 with
+  match ropen (LIM := Src.BINCODE_MAX_DESERIALIZE_prod) (Cursor ex_body) 0 with
   | Ok r =>
     nth 2 (hist_groups consts_verif (Cursor ex_body) 100 [[97]; [98]] r [[2; 0; 2]; [1; 1]; [3; 0; 100]]) []
     = [[7; 5]; [0; 1; 2; 3]; [0; 4; 5]; [0]]
@@ -267,7 +268,7 @@ Definition exs_good (c : st exs_stack) : bool :=
   end &&
   match into_inner _ (c_state c) with Ok i => r_off (e_in i) =? 3 | _ => false end.
 Example C10_example_stack_hist :
-  match ropen exs_stack exs_c0 with
+  match ropen (LIM := Src.BINCODE_MAX_DESERIALIZE_prod) exs_stack exs_c0 with
   | Ok r =>
     nth 2 (hist_groups consts_verif exs_stack 400 [[97]; [98]] r exs_ops) [] = [[7; 5]; [0; 1; 2; 3]; [0; 4; 5]; [0]] /\
     exs_good (r_src r) = true /\
